@@ -5,6 +5,7 @@ mod dev;
 mod e3;
 mod engine;
 mod hist;
+mod iterprog;
 mod model;
 mod oracle;
 mod pexec;
